@@ -96,6 +96,10 @@ def gen_scenario(rng, n_min, n_max, parallel, with_127):
              'excl': (not parallel) or False, 'warmup': rng.choice([None, None, 1])}
         if parallel and rng.random() < 0.15 and n > 3:
             r['excl'] = True
+        if parallel and rng.random() < 0.3:
+            # a configured interference factor (also larger than the number of cores): whatever degree of parallelism
+            # it leads to, every non-exclusive run is executed
+            r['pif'] = rng.choice([1.0, 2.5, 4.0, 10.5, 40.0])
         s = []
         kind = rng.choice(['ok', 'ok', 'flaky', 'flaky', 'fails', 'late', 'alternating'])
         if kind == 'alternating':
